@@ -1067,3 +1067,95 @@ impl<'a, 'b> Trivia for TapeTrivia<'a, 'b> {
     out
   }
 }
+
+// ---------------------------------------------------------------------------------------
+// Walkers (used by exclusion predicates and strata)
+// ---------------------------------------------------------------------------------------
+
+pub fn walk_ty<'a>(t: &'a Ty, fe: &mut dyn FnMut(&'a Ent, bool), ft: &mut dyn FnMut(&'a Ty1)) {
+  for t1 in &t.0 {
+    ft(t1);
+    walk_ty2(&t1.t2, fe, ft);
+    if let Some((_, rhs)) = &t1.op {
+      walk_ty2(rhs, fe, ft);
+    }
+  }
+}
+
+fn walk_args<'a>(args: &'a [Ty1], fe: &mut dyn FnMut(&'a Ent, bool), ft: &mut dyn FnMut(&'a Ty1)) {
+  for a in args {
+    ft(a);
+    walk_ty2(&a.t2, fe, ft);
+    if let Some((_, rhs)) = &a.op {
+      walk_ty2(rhs, fe, ft);
+    }
+  }
+}
+
+pub fn walk_ty2<'a>(t: &'a Ty2, fe: &mut dyn FnMut(&'a Ent, bool), ft: &mut dyn FnMut(&'a Ty1)) {
+  match t {
+    Ty2::Lit(_) | Ty2::Any | Ty2::Major { .. } => {}
+    Ty2::Name { args, .. } | Ty2::Unwrap { args, .. } | Ty2::ChoiceName { args, .. } => walk_args(args, fe, ft),
+    Ty2::Paren(t) => walk_ty(t, fe, ft),
+    Ty2::Map(g) => walk_grp(g, true, fe, ft),
+    Ty2::Arr(g) => walk_grp(g, false, fe, ft),
+    Ty2::ChoiceInline(g) => walk_grp(g, false, fe, ft),
+    Ty2::Tag { ty, .. } => walk_ty(ty, fe, ft),
+  }
+}
+
+/// `in_map`: the group is (part of) a map group
+pub fn walk_grp<'a>(g: &'a Grp, in_map: bool, fe: &mut dyn FnMut(&'a Ent, bool), ft: &mut dyn FnMut(&'a Ty1)) {
+  for gc in &g.0 {
+    for e in gc {
+      walk_ent(e, in_map, fe, ft);
+    }
+  }
+}
+
+pub fn walk_ent<'a>(e: &'a Ent, in_map: bool, fe: &mut dyn FnMut(&'a Ent, bool), ft: &mut dyn FnMut(&'a Ty1)) {
+  fe(e, in_map);
+  match &e.kind {
+    EntKind::Val { key, ty } => {
+      if let Some(Key::Arrow { t1, .. }) = key {
+        ft(t1);
+        walk_ty2(&t1.t2, fe, ft);
+        if let Some((_, rhs)) = &t1.op {
+          walk_ty2(rhs, fe, ft);
+        }
+      }
+      walk_ty(ty, fe, ft);
+    }
+    EntKind::Ref { args, .. } => walk_args(args, fe, ft),
+    EntKind::Inline(g) => walk_grp(g, in_map, fe, ft),
+  }
+}
+
+pub fn walk_schema<'a>(s: &'a Schema, fe: &mut dyn FnMut(&'a Ent, bool), ft: &mut dyn FnMut(&'a Ty1)) {
+  for r in &s.0 {
+    match &r.body {
+      Body::Ty(t) => walk_ty(t, fe, ft),
+      Body::Grp(e) => walk_ent(e, true, fe, ft),
+    }
+  }
+}
+
+pub fn any_ent(s: &Schema, mut p: impl FnMut(&Ent, bool) -> bool) -> bool {
+  let mut found = false;
+  walk_schema(s, &mut |e, m| found |= p(e, m), &mut |_| {});
+  found
+}
+
+pub fn any_ty1(s: &Schema, mut p: impl FnMut(&Ty1) -> bool) -> bool {
+  let mut found = false;
+  walk_schema(s, &mut |_, _| {}, &mut |t| found |= p(t));
+  found
+}
+
+/// a member key that is a type domain (not a literal)
+pub fn is_table_key(k: &Key) -> bool {
+  match k {
+    Key::Arrow { t1, .. } => !(t1.op.is_none() && matches!(t1.t2, Ty2::Lit(_))),
+    _ => false,
+  }
+}
